@@ -155,6 +155,89 @@ Qed.
 Theorem debug_enum_fmt_rejected vs : g_expand_enum cc true vs = RErr E_debug_enum_fmt.
 Proof. reflexivity. Qed.
 
+(** ** Layer-2 reading of the emitted shapes: what a variant prints.
+    [run a deref env] is what [format_args!(lit, args.., deref..)] prints with the bindings [env];
+    [match v { _variant => outer }] evaluates [outer] with [_variant] bound to the value of [v]. *)
+Section Sem.
+Variables (value out fspec : Type).
+Variable render : trait -> value -> fspec -> out.
+Variable run : fmt_attr -> list ident -> (ident -> value) -> out.
+Variable text_value : out -> value.           (* a [fmt::Arguments] / [&str] as a formattable value *)
+Variable name_text : str -> out.
+Variable default_fspec : fspec.
+Variable eval : texpr -> (ident -> value) -> value.
+
+Definition bind (x : ident) (v : value) (env : ident -> value) : ident -> value :=
+  fun y => if ident_eqb y x then v else env y.
+
+(** the text the variant prints by itself, as the value bound to [_variant] *)
+Definition sem_v (v : vexpr) (env : ident -> value) : value :=
+  match v with
+  | VFormatArgs a d => text_value (run a d env)
+  | VName s => text_value (name_text s)
+  | VFieldFormatArgs tr f => text_value (render tr (env f) default_fspec)
+  end.
+
+Fixpoint sem (b : body) (env : ident -> value) (sp : fspec) : out :=
+  match b with
+  | BDelegate tr e => render tr (eval e env) sp
+  | BWrite a d => run a d env
+  | BWriteStr s => name_text s
+  | BMatchVariant v outer => sem outer (bind variant_ident (sem_v v env) env) sp
+  | BEmpty => name_text []
+  end.
+
+(** wrapping: every variant prints the enum-level format with [_variant] standing for its own text *)
+Theorem wrap_semantics_own_attr d sa a env sp :
+  d_shared d = Some sa -> mentions_variant sa = true -> bare_same_trait sa (d_trait d) = false ->
+  d_fmt d = Some a ->
+  exists b, d_generate_body cc d = ROk b /\
+    sem b env sp =
+    sem (shared_body d sa)
+        (bind variant_ident (text_value (run a (additional_deref_args cc a (d_fields d)) env)) env) sp.
+Proof.
+  intros Hs Hm Hb Ha. rewrite (wrap_own_attr d sa a Hs Hm Hb Ha). eexists. split; reflexivity.
+Qed.
+
+Theorem wrap_semantics_single_field d sa f env sp :
+  d_shared d = Some sa -> mentions_variant sa = true -> bare_same_trait sa (d_trait d) = false ->
+  d_fmt d = None -> fl (d_fields d) = [f] ->
+  exists b, d_generate_body cc d = ROk b /\
+    sem b env sp =
+    sem (shared_body d sa)
+        (bind variant_ident
+              (text_value (render (d_trait d)
+                             (env (match fname f with Some n => n | None => positional_ident 0 end))
+                             default_fspec)) env) sp.
+Proof.
+  intros Hs Hm Hb Ha Hf. rewrite (wrap_single_field d sa f Hs Hm Hb Ha Hf). eexists. split; reflexivity.
+Qed.
+
+Theorem wrap_semantics_unit d sa env sp :
+  d_shared d = Some sa -> mentions_variant sa = true -> bare_same_trait sa (d_trait d) = false ->
+  d_fmt d = None -> fl (d_fields d) = [] ->
+  exists b, d_generate_body cc d = ROk b /\
+    sem b env sp = sem (shared_body d sa) (bind variant_ident (text_value (name_text (d_name d))) env) sp.
+Proof.
+  intros Hs Hm Hb Ha Hf. rewrite (wrap_unit d sa Hs Hm Hb Ha Hf). eexists. split; reflexivity.
+Qed.
+
+(** not mentioning [_variant]: the variant's own attribute alone decides (the enum-level one is not consulted),
+    and a variant without attribute prints the enum-level format over its own fields *)
+Theorem default_semantics d sa env sp :
+  d_shared d = Some sa -> mentions_variant sa = false ->
+  exists b, d_generate_body cc d = ROk b /\
+    sem b env sp = match d_fmt d with
+                   | Some a => sem (own_body d a) env sp
+                   | None => sem (shared_body d sa) env sp
+                   end.
+Proof.
+  intros Hs Hm. destruct (d_fmt d) as [a|] eqn:Ha.
+  - rewrite (default_own_wins d sa a Hs Hm Ha). eexists. split; reflexivity.
+  - rewrite (default_used d sa Hs Hm Ha). eexists. split; reflexivity.
+Qed.
+End Sem.
+
 End C07.
 
 (** non-vacuity: "<{_variant}>" mentions _variant, is not bare; "{_variant}" under Display is bare *)
